@@ -470,6 +470,9 @@ func isNilIdent(ex ast.Expr) bool {
 }
 
 func (e *Exec) nilTest(v Val) Term {
+	if v.Addr != nil {
+		return Eq(v.Addr.Ref, "0") // an interior pointer is nil only if its base is
+	}
 	switch unalias(v.T).Underlying().(type) {
 	case *types.Slice:
 		return Eq(app("s_base", v.Term), "0")
@@ -645,11 +648,37 @@ func (e *Exec) evalQuant(env *Env, q string, fl *ast.FuncLit) (Val, error) {
 		return Val{}, err
 	}
 	qt := fmt.Sprintf("(%s (%s) %s)", q, strings.Join(decls, " "), body)
-	if len(syms) == 1 && sorts[0] == "Int" && e.inQuant == 0 && strings.Contains(body, "(+ ") {
+	if len(syms) == 1 && sorts[0] == "Int" && e.inQuant == 0 {
 		// name the quantified formula and register it for index instantiation
 		qs := e.define("Q", "Bool", qt)
 		sym := syms[0]
-		e.registerIntQuant(qs, func(t Term) Term { return substSym(body, sym, t) }, q == "forall")
+		nested := strings.Contains(body, "(forall ") || strings.Contains(body, "(exists ")
+		inst := func(t Term) Term { return substSym(body, sym, t) }
+		if nested {
+			// re-evaluate the body with the variable bound to the term, so that inner quantifiers are
+			// themselves named, given witnesses and instantiated; states are snapshotted now
+			ienv := nenv.clone()
+			ienv.cur = env.cur.clone()
+			if env.old != nil {
+				ienv.old = env.old.clone()
+			}
+			var vname string
+			var vtype types.Type
+			for _, fld := range fl.Type.Params.List {
+				vname = fld.Names[0].Name
+				vtype, _ = e.resolveType(env, fld.Type)
+			}
+			bodyExpr := ret.Results[0]
+			inst = func(t Term) Term {
+				ienv.vars[vname] = Val{T: vtype, Term: t}
+				r, err := e.evalBool(ienv, bodyExpr)
+				if err != nil {
+					return substSym(body, sym, t)
+				}
+				return r
+			}
+		}
+		e.registerIntQuant(qs, inst, q == "forall", nested)
 		return Val{T: tBool, Term: qs}, nil
 	}
 	return Val{T: tBool, Term: qt}, nil
@@ -734,6 +763,12 @@ func (e *Exec) evalCall(env *Env, x *ast.CallExpr) (Val, error) {
 				return Val{T: tInt, Term: app("str.len", v.Term)}, nil
 			}
 			return Val{}, fmt.Errorf("len of %s", v.T)
+		case "cap":
+			v, err := e.eval(env, x.Args[0])
+			if err != nil {
+				return Val{}, err
+			}
+			return Val{T: tInt, Term: app("s_cap", v.Term)}, nil
 		case "has":
 			m, err := e.eval(env, x.Args[0])
 			if err != nil {
@@ -804,6 +839,48 @@ func (e *Exec) evalCall(env *Env, x *ast.CallExpr) (Val, error) {
 				return Val{}, fmt.Errorf("loop %d is not a map range loop (or not reached yet)", n)
 			}
 			return Val{T: tBool, Term: Select(e.comp(env.cur, vn, e.compSort[vn]), k.Term)}, nil
+		}
+		if fv, ok := env.vars[id.Name]; ok {
+			if sig, isSig := unalias(fv.T).Underlying().(*types.Signature); isSig {
+				var args []Val
+				for i, a := range x.Args {
+					var want types.Type
+					if i < sig.Params().Len() {
+						want = sig.Params().At(i).Type()
+					}
+					var v Val
+					var err error
+					if want != nil {
+						v, err = e.evalAs(env, a, want)
+					} else {
+						v, err = e.eval(env, a)
+					}
+					if err != nil {
+						return Val{}, err
+					}
+					args = append(args, v)
+				}
+				var resT types.Type = sig.Results()
+				if sig.Results().Len() == 1 {
+					resT = sig.Results().At(0).Type()
+				}
+				if fv.Clo != nil {
+					// a known closure: its (side-effect free) body evaluated in the current state
+					if e.inQuant > 0 {
+						return Val{}, fmt.Errorf("call of closure %s under a quantifier", id.Name)
+					}
+					scratch := env.cur.clone()
+					e.discovery++
+					nlog := len(e.wlog)
+					e.inlineStack = append(e.inlineStack, fv.Clo.Fn)
+					_, rr := e.runBody(fv.Clo.Fn, args, fv.Clo.Bindings, scratch, "true", nil, 1)
+					e.inlineStack = e.inlineStack[:len(e.inlineStack)-1]
+					e.wlog = e.wlog[:nlog]
+					e.discovery--
+					return e.packResult(resT, rr.rets), nil
+				}
+				return e.pureCallback(fv, args, resT), nil
+			}
 		}
 		if p, ok := e.W.preds[id.Name]; ok {
 			if len(x.Args) != len(p.Params) {
